@@ -147,11 +147,11 @@ def callable_cell(a, b) -> str | None:
     return None
 
 
-F25_CELL = "contravariant-generic(arguments related by non-proper subtyping only)"
+FC08B_CELL = "contravariant-generic(arguments related by non-proper subtyping only)"
 
 
 def meet_cell(a, b) -> str:
-    """Cell of a failing meet law instance.  F25: `visit_instance` meets the arguments of two instances of the same
+    """Cell of a failing meet law instance.  F-C08b: `visit_instance` meets the arguments of two instances of the same
     class whenever `is_subtype` holds one way — also for a contravariant parameter; this is reached only when the
     proper-subtype shortcuts of `meet_types` did not fire, i.e. the arguments are related through the non-proper
     `Type[C] <: Callable` rule or through a promotion (`int <: float`)."""
@@ -163,7 +163,7 @@ def meet_cell(a, b) -> str:
         x, y = pa.args[0], pb.args[0]
         if ((is_subtype(x, y) or is_subtype(y, x)) and not is_proper_subtype(x, y, ignore_promotions=True)
                 and not is_proper_subtype(y, x, ignore_promotions=True)):
-            return F25_CELL
+            return FC08B_CELL
     return callable_cell(a, b) or f"{kind(a)}×{kind(b)}"
 
 
